@@ -380,12 +380,23 @@ def _canary_task(i):
     if undo is None:
         return 'n/a'
     os.environ['PYVC_SERIAL'] = '1'
+    os.environ['PYVC_CANARY'] = '1'
+    if cn.get('unproved_is_enough'):
+        os.environ['PYVC_CANARY_FIRST'] = '1'      # stop at the first obligation that is not proved
+    else:
+        os.environ.pop('PYVC_CANARY_FIRST', None)
     try:
         uses_c = {k: [x for x in v if x not in cn.get('inline', [])] for k, v in uses.items()}
         r = driver.run_contracts(world, contracts, uses_c, only=[cn.get('verify', cn['function'])],
                                  combo_filter=cn.get('combos'))
         o2, _ = driver.aggregate(contracts, r)
         st = o2.get(cn['expect'], {}).get('status')
+        if st != 'refuted' and cn.get('unproved_is_enough'):
+            # obligations over quantified / string-heavy facts: a counter-model may be out of the solvers' reach;
+            # the mutated body is rejected as soon as a generated obligation is no longer proved
+            for oid, o in sorted(o2.items()):
+                if o.get('sat', 0) + o.get('unknown', 0) > 0:
+                    return 'refuted'
         if st != 'refuted':
             # the mutated body must be rejected; the obligation that rejects it may be another one of the same
             # contract (e.g. an assertion of the code itself now fails first)
